@@ -202,7 +202,18 @@ func init() {
 					mod := append([]byte{}, first...)
 					mod[bits[i]/8] ^= 1 << (bits[i] % 8)
 					mod[bits[j]/8] ^= 1 << (bits[j] % 8)
-					if !check(mod, protected[bits[i]/8], true, fmt.Sprintf("bits %d and %d flipped", bits[i], bits[j])) {
+					prot, what := true, protected[bits[i]/8]
+					if cs.Transport == "cdn" {
+						// two flipped bits of one base64 character ('/' <-> '7') can toggle exactly bit 255 of
+						// the ephemeral key and nothing else: the same void bit as in the single-flip sweep
+						if hd, ho := hiddenOf(mod), hiddenOf(first); len(hd) == len(ho) && len(hd) >= 32 {
+							hd[31] ^= 0x80
+							if bytes.Equal(hd, ho) {
+								prot, what = false, "key-bit-255"
+							}
+						}
+					}
+					if !check(mod, what, prot, fmt.Sprintf("bits %d and %d flipped", bits[i], bits[j])) {
 						break outer
 					}
 				}
@@ -281,8 +292,7 @@ func init() {
 	vx.Register(&vx.Scenario{Name: "auth.matrix", Prop: "C07", Run: func(c *vx.Ctx) *vx.Report {
 		rep := &vx.Report{Job: c.Job, Engine: "enum", Outcomes: map[string]int64{}, Exhaustive: true}
 		transport := c.P("transport", "direct")
-		now := rtime.Now().Unix()
-		records := []string{"absent", "ok", "upcredit0", "downcredit0", "negative", "expired", "expires-now+5", "expires-later"}
+		records := []string{"absent", "ok", "upcredit0", "downcredit0", "negative", "expired", "expires-soon", "expires-later"}
 		for _, rec := range records {
 			for _, bypass := range []bool{false, true} {
 				for _, pm := range []string{"shadowsocks", "unknown", "Shadowsocks"} {
@@ -302,6 +312,7 @@ func init() {
 								adminUID = nil
 							}
 							mgr := freshBoltManagerPlain()
+							now := rtime.Now().Unix() // per case: "soon" is relative to when this case runs
 							info := usermanager.UserInfo{UID: uidOf(0), SessionsCap: i32(5), UpRate: i64(1 << 30), DownRate: i64(1 << 30), UpCredit: i64(1000), DownCredit: i64(1000), ExpiryTime: i64(now + 86400)}
 							switch rec {
 							case "upcredit0":
@@ -312,8 +323,8 @@ func init() {
 								info.UpCredit = i64(-5)
 							case "expired":
 								info.ExpiryTime = i64(now - 10)
-							case "expires-now+5":
-								info.ExpiryTime = i64(now + 5)
+							case "expires-soon":
+								info.ExpiryTime = i64(now + 45) // near, yet far enough that a loaded machine does not reach it within one case
 							}
 							if rec != "absent" {
 								mgr.WriteUserInfo(info)
@@ -387,7 +398,7 @@ func init() {
 							}
 							// expectation
 							isAdmin := adminUID != nil && bytes.Equal(uid, adminUID)
-							userOK := rec == "ok" || rec == "expires-now+5" || rec == "expires-later"
+							userOK := rec == "ok" || rec == "expires-soon" || rec == "expires-later"
 							var want string
 							switch {
 							case !goodKey:
@@ -455,6 +466,127 @@ func init() {
 		return rep
 	}})
 
+	// auth.second: the same gate for a first packet that arrives while its user already holds a session -
+	// with that session's id or a new one. Every requirement still applies to each connection: an
+	// unknown proxy method, a wrong key, a stale timestamp or a foreign UID is web traffic even when the
+	// session id it names exists.
+	vx.Register(&vx.Scenario{Name: "auth.second", Prop: "C07", Run: func(c *vx.Ctx) *vx.Report {
+		rep := &vx.Report{Job: c.Job, Engine: "enum", Outcomes: map[string]int64{}, Exhaustive: true}
+		transport := c.P("transport", "direct")
+		now := rtime.Now().Unix()
+		type second struct {
+			name    string
+			uid     int
+			sid     uint32
+			pm      string
+			goodKey bool
+			offset  int
+			want    string
+		}
+		var seconds []second
+		for _, sid := range []uint32{9, 10} {
+			for _, pm := range []string{"shadowsocks", "unknown", "Shadowsocks"} {
+				w := "redirect"
+				if pm == "shadowsocks" {
+					w = "answer"
+				}
+				seconds = append(seconds, second{fmt.Sprintf("sid=%d method=%q", sid, pm), 0, sid, pm, true, 0, w})
+			}
+			seconds = append(seconds,
+				second{fmt.Sprintf("sid=%d wrong-key", sid), 0, sid, "shadowsocks", false, 0, "redirect"},
+				second{fmt.Sprintf("sid=%d stale-timestamp", sid), 0, sid, "shadowsocks", true, -181, "redirect"},
+				second{fmt.Sprintf("sid=%d future-timestamp", sid), 0, sid, "shadowsocks", true, 181, "redirect"},
+				second{fmt.Sprintf("sid=%d foreign-uid", sid), 2, sid, "shadowsocks", true, 0, "redirect"})
+		}
+		for _, bypass := range []bool{false, true} {
+			for _, sc := range seconds {
+				mgr := freshBoltManagerPlain()
+				mgr.WriteUserInfo(usermanager.UserInfo{UID: uidOf(0), SessionsCap: i32(5), UpRate: i64(1 << 30), DownRate: i64(1 << 30), UpCredit: i64(1000), DownCredit: i64(1000), ExpiryTime: i64(now + 86400)})
+				var bp [][]byte
+				if bypass {
+					bp = append(bp, uidOf(0))
+				}
+				r := newE2ERig(mgr, bp, nil)
+				r.sta.WorldState = common.WorldState{Rand: vWorld().Rand, Now: rtime.Now}
+				if transport == "cdn" {
+					r.startCDN(2)
+				}
+				r.serve(2)
+				webGot := make(chan []byte, 2)
+				go func() {
+					for {
+						wc, err := r.webL.Accept()
+						if err != nil {
+							return
+						}
+						b := make([]byte, 4096)
+						k, _ := wc.Read(b)
+						wc.Write([]byte("WEB-ANSWER"))
+						webGot <- b[:k]
+						wc.Close()
+					}
+				}()
+				desc := fmt.Sprintf("user holds session 9; then %s (bypass=%v, transport=%s)", sc.name, bypass, transport)
+				msg := ""
+				// the session the user already holds
+				cs0 := hsCase{Transport: transport, Browser: "firefox", Method: "plain", ProxyMethod: "shadowsocks", SID: 9, ServerName: "example.com"}
+				remote0, auth0 := r.clientCfgFor(cs0, uidOf(0))
+				conn0, _ := r.dialer.Dial("tcp", remote0.RemoteAddr)
+				conn0.SetReadDeadline(rtime.Now().Add(30 * rtime.Second))
+				tr0 := remote0.Transport.CreateTransport()
+				if _, err := tr0.Handshake(conn0, auth0); err != nil {
+					msg = desc + ": the first, valid handshake failed: " + err.Error()
+				}
+				conn0.SetReadDeadline(rtime.Time{})
+				// the connection under test
+				pub := r.pub
+				if !sc.goodKey {
+					_, p2, _ := ecdh.GenerateKey(fixedReader{99})
+					r.pub = *(p2.(*[32]byte))
+				}
+				cs := hsCase{Transport: transport, Browser: "firefox", Method: "plain", ProxyMethod: sc.pm, SID: sc.sid, ServerName: "example.com", Offset: sc.offset}
+				remote, auth := r.clientCfgFor(cs, uidOf(sc.uid))
+				r.pub = pub
+				conn, _ := r.dialer.Dial("tcp", remote.RemoteAddr)
+				conn.SetReadDeadline(rtime.Now().Add(30 * rtime.Second))
+				trc := remote.Transport.CreateTransport()
+				_, herr := trc.Handshake(conn, auth)
+				got := "redirect"
+				if herr == nil {
+					got = "answer"
+				}
+				rep.Executions++
+				rep.Transitions++
+				if msg == "" && got != sc.want {
+					msg = fmt.Sprintf("%s: the client was given %s, expected %s (handshake error: %v)", desc, got, sc.want, herr)
+				}
+				if msg == "" && sc.want == "redirect" && transport == "direct" {
+					select {
+					case fw := <-webGot:
+						if len(fw) < 5 || fw[0] != 0x16 {
+							msg = fmt.Sprintf("%s: the redirect target received % x...", desc, fw[:min(len(fw), 8)])
+						}
+					case <-rtime.After(30 * rtime.Second):
+						msg = desc + ": the connection was neither answered nor relayed to the redirect target"
+					}
+				}
+				conn.Close()
+				conn0.Close()
+				mgr.Close()
+				rep.Outcomes[sc.want]++
+				if msg != "" {
+					rep.Violations = append(rep.Violations, vx.Violation{Clause: "only-authorised-clients-answered", Sig: vx.Sig(c.Job, "only-authorised-clients-answered"), Msg: msg})
+					rep.Exhaustive = false
+					if len(rep.Violations) >= 3 {
+						break
+					}
+				}
+			}
+		}
+		rep.States = rep.Executions
+		return rep
+	}})
+
 	vx.RegisterJobs("C07", func(tier string) []vx.Job {
 		jobs := []vx.Job{
 			{Scenario: "auth.bitflips", Params: vx.P("transport", "direct", "browser", "chrome"), Weight: 8},
@@ -465,6 +597,8 @@ func init() {
 			{Scenario: "auth.window", Params: vx.P("transport", "cdn"), Weight: 2},
 			{Scenario: "auth.matrix", Params: vx.P("transport", "direct"), Weight: 9},
 			{Scenario: "auth.matrix", Params: vx.P("transport", "cdn"), Weight: 9},
+			{Scenario: "auth.second", Params: vx.P("transport", "direct"), Weight: 3},
+			{Scenario: "auth.second", Params: vx.P("transport", "cdn"), Weight: 3},
 			// "a UID the server currently authorises": admission of every connection along histories of
 			// credit / expiry / cap changes while the user is already active (shared with C15)
 			{Scenario: "panel.history", Params: vx.P("depth", "6"), Weight: 5},
